@@ -24,6 +24,7 @@ import traceback
 import warnings
 
 import common
+import c19_more
 from common import Check, main_wrapper
 
 I32MIN, I32MAX = -(1 << 31), (1 << 31) - 1
@@ -291,6 +292,8 @@ def main():
             both = ck.model(["fpboth %s %s" % (rp["fn"], " ".join(map(str, rp["args"])))], parallel=False)[0]
             print(f"replay fp {rp['fn']}{tuple(rp['args'])} operands as {rp['typing']}: implementation={real}  model|reference={both}")
             sys.exit(0 if real == both.split(" | ")[0] else 1)
+        if rp.get("kind") == "softmax_exp":
+            sys.exit(c19_more.replay_softmax(ck, np, rp))
         print("replay: table cases are re-run by `./check C19 quick` with the recorded seed:", rp.get("seed_hint", ck.seed))
         sys.exit(0)
 
@@ -810,6 +813,10 @@ def main():
 
     for k, v in float_diffs.items():
         ck.count("float_tables_" + k, v)
+
+    # ---------------- C. table generators outside the graph optimiser's integer tables (harness/c19_more.py) -----------
+    more = {"softmax_exp": c19_more.softmax_exp_stream(ck, np)}
+    n_eval += sum(m["evaluations"] for m in more.values())
     n_tab_nontrivial = len({(c["kind"], c.get("model_req")) for c in tab_cases if c.get("model_req")})
     ck.sample({"request": reqs[0], "lean(model | reference)": outs[0]})
     ck.sample({"request": reqs[len(reqs) // 2], "lean(model | reference)": outs[len(reqs) // 2]})
@@ -819,7 +826,8 @@ def main():
     unreached = sorted({"err:assert", "err:value", "err:overflow"} - reached)
     ck.finish({
         "evaluations": n_eval + sum(len(c.get("real") or []) for c in tab_cases),
-        "distinct_nontrivial": n_fp_nontrivial + n_tab_nontrivial,
+        "distinct_nontrivial": n_fp_nontrivial + n_tab_nontrivial + sum(m["distinct"] for m in more.values()),
+        "more_table_streams": more,
         "rule": "fp case = (function, operand values) evaluated by model, reference and the real function under each operand typing; "
                 "non-trivial when the model accepts it and a data operand is outside {-1,0,1}; distinct by (function, values). "
                 "table case = one (kind, dtype, scales, scale type, zero points, alpha, zero-point type) configuration, 256 entries (48 constants for Quantize, "
